@@ -316,6 +316,9 @@ pub fn observe(case: &Value) -> Value {
         }
         acc["fmt"] = guard(|| json!({"display": format!("{}", msg).len(), "debug": format!("{:?}", msg).len()}));
         o["acc"] = acc;
+        if let Some(l) = case["cutlist"].as_array() {
+            o["cutlist"] = json!(l.iter().map(|n| { let n = (n.as_u64().unwrap_or(0) as usize).min(b.len()); json!({"n": n, "parse": parse_json(&b[..n]), "hdr": header_json(&b[..n])}) }).collect::<Vec<_>>());
+        }
         if case["cuts"].as_bool() == Some(true) {
             o["cuts"] = json!((0..b.len()).map(|n| json!({"parse": parse_json(&b[..n]), "hdr": header_json(&b[..n])})).collect::<Vec<_>>());
         }
@@ -374,6 +377,42 @@ pub fn main_codec(args: &[String]) {
         o["i"] = json!(i + 1);
         o["any_panic"] = json!(has_panic(&o));
         current.store(u64::MAX, Ordering::SeqCst);
+        writeln!(out, "{}", o).unwrap();
+    }
+    out.flush().unwrap();
+}
+
+/// `stunh attrs <cases.ndjson> <out.ndjson>`: cases {type, value, tid}: the matching typed decoder's answer, its
+/// re-encodings, and every other decoder's refusal
+pub fn main_attrs(args: &[String]) {
+    let inp = std::fs::File::open(&args[0]).expect("cases file");
+    let mut out = std::io::BufWriter::new(std::fs::File::create(&args[1]).expect("out file"));
+    for (i, line) in std::io::BufReader::new(inp).lines().enumerate() {
+        let line = line.unwrap();
+        if line.trim().is_empty() {
+            continue;
+        }
+        let c: Value = serde_json::from_str(&line).expect("case json");
+        let ty = c["type"].as_u64().unwrap() as u16;
+        let val = bytes_of(&c["value"]);
+        let mut t16 = [0u8; 16];
+        t16[4..].copy_from_slice(&bytes_of(&c["tid"]));
+        let tid = TransactionId::from(u128::from_be_bytes(t16));
+        let raw = RawAttribute::new(AttributeType::new(ty), &val);
+        let mut o = json!({"i": i + 1});
+        o["dec"] = guard(|| typed(&raw, tid, true));
+        o["wrong_impl_bad"] = guard(|| wrong_impl(&raw));
+        // the raw attribute itself: every serialisation path of the same value
+        o["raw"] = guard(|| {
+            let rb = raw.to_bytes();
+            let plen = raw.padded_len();
+            let mut buf = vec![0xAAu8; plen + 8];
+            let w = raw.write_into(&mut buf);
+            let reparsed = RawAttribute::from_bytes(&rb).map(|r| r.get_type().value() == ty && *r.value == *val && r.length() as usize == val.len()).unwrap_or(false);
+            json!({"bytes": rb, "padded_len": plen, "length": raw.length(),
+                   "write": match w { Ok(n) => json!({"n": n, "bytes": buf[..n.min(buf.len())].to_vec(), "tail_intact": buf[n.min(buf.len())..].iter().all(|b| *b == 0xAA)}), Err(e) => werr(&e) },
+                   "reparsed": reparsed, "display_len": format!("{}", raw).len(), "owned_eq": raw.clone().into_owned() == raw})
+        });
         writeln!(out, "{}", o).unwrap();
     }
     out.flush().unwrap();
